@@ -208,6 +208,13 @@ class Interp(object):
             return self.native(model, [self] + list(args), kwargs, model_call=True)
         if isinstance(f, InterpFunction):
             return f(*args, **kwargs)
+        w = getattr(f, '__wrapped__', None)
+        if w is not None and hasattr(f, 'cache_info') and isinstance(w, types.FunctionType) and in_repo_scope(w.__module__):
+            # functools.lru_cache around a repository function: assumed semantics - the result of the wrapped function for
+            # these arguments (memoisation of a function of hashable arguments; whether the function IS pure is exactly what
+            # executing its body for arbitrary arguments, together with the frame obligations, checks)
+            self.functions_seen.setdefault('functools.lru_cache', 'assumed external: returns the wrapped function\'s result')
+            return self.call_function(w, args, kwargs)
         if isinstance(f, types.FunctionType):
             if in_repo_scope(f.__module__):
                 return self.call_function(f, args, kwargs)
